@@ -82,32 +82,25 @@ def _process_many(*args, connectable, zip, combine):
 
         is_done = [False] * n
         source_failed = []
-        errors = []
 
         def done(i):
-            # the stream terminates when all branches have terminated
+            # the stream completes when all branches have completed
             is_done[i] = True
             if all(is_done):
-                if len(errors) > 0:
-                    observer.on_error(errors[0])
-                else:
-                    observer.on_completed()
+                observer.on_completed()
 
         def on_error(i, e):
-            if len(source_failed) > 0:
-                # an error of the source reaches every branch: it is forwarded
-                # once they all have seen it
-                errors.append(e)
-                done(i)
-            else:
+            # an error of the source reaches every branch: it is forwarded by
+            # the tap subscribed after them, once they all have seen it
+            if len(source_failed) == 0:
                 observer.on_error(e)
 
         subscriptions = [None] * n
         # subscribed before the branches: notified first of a source error
-        source_subscription = connectable.subscribe(
+        subscriptions.append(connectable.subscribe(
             on_error=source_failed.append,
             scheduler=scheduler,
-        )
+        ))
         for i in range(n):
             subscriptions[i] = sources[i].subscribe_(
                 on_next=functools.partial(on_next, i),
@@ -115,7 +108,11 @@ def _process_many(*args, connectable, zip, combine):
                 on_completed=functools.partial(done, i),
                 scheduler=scheduler,
             )
-        subscriptions.append(source_subscription)
+        # subscribed after the branches: notified last of a source error
+        subscriptions.append(connectable.subscribe(
+            on_error=observer.on_error,
+            scheduler=scheduler,
+        ))
         subscriptions.append(connectable.connect(scheduler=scheduler))
         return CompositeDisposable(subscriptions)
 
